@@ -30,6 +30,10 @@ def nl_axioms(ctx):
     ctx.assume(F_NL(S('dos')) == S('\r\n'))
     ctx.assume(F_Unbordered(S('\n')))
     ctx.assume(F_Unbordered(S('\r\n')))
+    # ASCII: encoding is the identity on the newline texts, no BOM
+    for t in ('\n', '\r\n'):
+        ctx.assume(M.F_Enc(S('ascii'), S(t)) == S(t))
+        ctx.assume(F_StripBom(S(t), S('ascii')) == S(t))
 
 
 def newline_facts(ctx, nl, enc=None):
@@ -59,7 +63,8 @@ def f_EncNL(it, args, kw):
     nl_axioms(it.ctx)
     enc, kind = args
     e = enc.e if isinstance(enc, VStr) else S('ascii')
-    return VStr(enc_nl(e, kind.e), True)
+    k = Val.sval(kind.e) if isinstance(kind, VBox) else kind.e
+    return VStr(enc_nl(e, k), True)
 
 
 def f_NLText(it, args, kw):
